@@ -6,3 +6,17 @@ pub mod sched;
 pub mod thread;
 
 pub use sched::{run, Outcome, Policy, RunConfig};
+
+// ------------------------------------------------------------------------------------------------
+// process arguments seam (guarded hook in fastpasta::config::init_config)
+// ------------------------------------------------------------------------------------------------
+static PROCESS_ARGS: std::sync::Mutex<Vec<String>> = std::sync::Mutex::new(Vec::new());
+
+/// The command line of the simulated process (program name first).
+pub fn set_process_args(args: Vec<String>) {
+    *PROCESS_ARGS.lock().unwrap_or_else(|p| p.into_inner()) = args;
+}
+
+pub fn process_args() -> Vec<String> {
+    PROCESS_ARGS.lock().unwrap_or_else(|p| p.into_inner()).clone()
+}
